@@ -28,6 +28,26 @@ def is_index(t):
     return isinstance(t, tuple) and len(t) == 3 and isinstance(t[0], str) and re.search(r"(^|::)index(_mut)?$", t[0]) is not None
 
 
+def c_slice_get(w, e, args, suffix, variant):
+    """std semantics of slice::get / get_mut with a range: Some => the range lies within the slice"""
+    if suffix == "" and variant == "Some" and len(args) == 2 and isinstance(args[1], tuple) and args[1]:
+        r = args[1]
+        n = w.L.len_lin(args[0])
+        if r[0] == "Range" and len(r) == 3:
+            a, b = w.L.lin(r[1]), w.L.lin(r[2])
+            return [add(b, a, -1), add(n, b, -1)]
+        if r[0] == "RangeTo" and len(r) == 2:
+            return [add(n, w.L.lin(r[1]), -1)]
+        if r[0] == "RangeFrom" and len(r) == 2:
+            return [add(n, w.L.lin(r[1]), -1)]
+        if r[0] == "RangeToInclusive" and len(r) == 2:
+            return [add(add(n, w.L.lin(r[1]), -1), {1: -1})]
+    return []
+
+
+SLICE_GET_RX = r"slice::<impl \[.*\]>::get(_mut)?(::<.*>)?$"
+
+
 class Namer:
     """maps expression trees to variable names; rules may pre-register names for readability"""
 
@@ -72,6 +92,11 @@ class Lin:
                 return n
         if isinstance(t, tuple) and t and t[0] == "array":
             return {1: len(t) - 1} if len(t) > 1 else {}
+        # the Some payload of slice.get(range) / get_mut(range): as long as the range (the check is the `get` itself)
+        if isinstance(t, tuple) and len(t) == 2 and isinstance(t[1], str) and t[1] in (".some", ".some.*", ".ok", ".ok.*") \
+                and isinstance(t[0], tuple) and len(t[0]) == 3 and isinstance(t[0][0], str) and re.search(r"(^|::)get(_mut)?$", t[0][0]) \
+                and isinstance(t[0][2], tuple) and t[0][2] and t[0][2][0] in ("Range", "RangeTo", "RangeFrom", "RangeFull", "RangeToInclusive"):
+            return self.len_lin(("index",) + tuple(t[0][1:]))
         if isinstance(t, tuple) and t and isinstance(t[0], str) and re.match(r"[ui](8|16|32|64|128)::to_[bln]e_bytes$", t[0]):
             return {1: int(re.match(r"[ui](\d+)", t[0]).group(1)) // 8}
         if is_index(t):
